@@ -121,8 +121,8 @@ func parseUp(s string) map[string]*specT {
 		sp := &specT{name: name, kind: f[0][0], ans: parseItems(f[1]), ns: parseItems(f[2])}
 		if sp.kind == 'c' {
 			sp.tgt = name[:1] + f[0][1:] // an alias is chased with the question's own type
-			if f[0][1] == 'p' {
-				sp.tgt = f[0][1:] // alias onto a name of the proof zone
+			if f[0][1] == 'p' || f[0][1] == 'u' {
+				sp.tgt = f[0][1:] // alias onto a name of the proof zone / below a subtree cut
 			}
 		}
 		if f[3] != "-" {
@@ -491,6 +491,23 @@ func markOf(rr dns.RR) int {
 	return -1
 }
 
+func cutRecordID(rr dns.RR) (int, bool) {
+	if strings.ToLower(rr.Header().Name) != "z.test." && !(strings.HasPrefix(strings.ToLower(rr.Header().Name), "c") && strings.HasSuffix(strings.ToLower(rr.Header().Name), ".z.test.") && len(rr.Header().Name) == len("c1.z.test.")) {
+		return 0, false
+	}
+	switch r := rr.(type) {
+	case *dns.SOA:
+		if r.Serial >= cutBase {
+			return int(r.Serial), true
+		}
+	case *dns.RRSIG:
+		if r.Inception >= cutBase && r.Inception < 10*cutBase {
+			return int(r.Inception), true
+		}
+	}
+	return 0, false
+}
+
 // replyRecs: side is 'm' when the reply to an AAAA question came from the
 // AAAA side of the cache (passed through by dns64), 'n' otherwise (A side:
 // plain A questions, and AAAA questions dns64 answered from the A response).
@@ -513,6 +530,9 @@ func replyRecs(qtok string, m *dns.Msg, side byte) []recTok {
 				return "sz"
 			} else if strings.HasSuffix(lo, ".pz.test.") && strings.HasPrefix(lo, "w") {
 				return "s" + strings.TrimSuffix(lo[1:], ".pz.test.")
+			}
+			if strings.HasPrefix(o, "c") && len(o) == 2 {
+				return "d" + o[1:] // the NSEC of the cut d<k>
 			}
 			if qtok[0] == 'u' {
 				return "d" + qtok[1:]
@@ -538,10 +558,12 @@ func replyRecs(qtok string, m *dns.Msg, side byte) []recTok {
 				continue
 			}
 			mk := markOf(rr)
-			if qtok[0] == 'u' {
-				mk = -1
+			tk := tokOf(rr.Header().Name, true)
+			// the records of a subtree cut carry (cut, admission) in SOA serial / RRSIG inception
+			if id, ok := cutRecordID(rr); ok {
+				tk, mk = fmt.Sprintf("d%d", id/cutBase), id%cutBase
 			}
-			out = append(out, recTok{tok: tokOf(rr.Header().Name, true), ns: true, ttl: int64(rr.Header().Ttl), mark: mk, typ: rr.Header().Rrtype})
+			out = append(out, recTok{tok: tk, ns: true, ttl: int64(rr.Header().Ttl), mark: mk, typ: rr.Header().Rrtype})
 		}
 	}
 	return out
@@ -677,6 +699,11 @@ func fail(sig, format string, a ...any) string {
 // by (piece, mark), not by which entry currently sits in the piece's slot.
 func (h *histT) originOf(r recTok) (*orec, bool) {
 	if r.tok[0] == 'd' {
+		if r.mark >= 0 {
+			if o := h.origins[fmt.Sprintf("%s#%d", r.tok, r.mark)]; o != nil {
+				return o, false
+			}
+		}
 		return h.cuts[r.tok], false
 	}
 	if r.fresh {
@@ -924,7 +951,7 @@ func (h *histT) register(chs []change, script map[string]*specT, recs []recTok, 
 				}
 			}
 			for _, t := range chainAfter(recs, c.k.tok) {
-				if !isNameTok(t) && t[0] != 's' {
+				if !isNameTok(t) && t[0] != 's' && t[0] != 'd' {
 					continue
 				}
 				var origins []*orec
@@ -1270,8 +1297,12 @@ func (h *histT) pfdone(tok, up string) vlib.Res {
 
 // cutrec: `c cutrec <k> <s..,g..,p..,g..> <lease|->` records an RFC 8020 cut
 // for d<k>.z.test. through Store.RecordNXDomainCut.
+const cutBase = 100000
+
 func (h *histT) cutrec(k, itemS, leaseS string) vlib.Res {
 	h.j++
+	h.marks++
+	cmark := 1 + h.marks%250
 	items := parseItems(itemS)
 	denied := "d" + k + ".z.test."
 	var ok bool
@@ -1288,10 +1319,12 @@ func (h *histT) cutrec(k, itemS, leaseS string) vlib.Res {
 		for _, it := range items {
 			switch it.kind {
 			case 's':
-				proof.Ns = append(proof.Ns, mkSOA("z.test.", it.ttl, uint32(it.a)))
+				so := mkSOA("z.test.", it.ttl, uint32(it.a))
+				so.Serial = uint32(cutBase*vlib.Atoi(k) + cmark) // identifies (cut, admission)
+				proof.Ns = append(proof.Ns, so)
 			case 'p':
 				proof.Ns = append(proof.Ns, &dns.NSEC{Hdr: dns.RR_Header{Name: "c" + k + ".z.test.", Rrtype: dns.TypeNSEC, Class: dns.ClassINET, Ttl: it.ttl},
-					NextDomain: "e" + k + ".z.test.", TypeBitMap: []uint16{dns.TypeA, dns.TypeRRSIG, dns.TypeNSEC}})
+					NextDomain: "e" + k + ".z.test.", TypeBitMap: []uint16{dns.TypeA, dns.TypeRRSIG, dns.TypeNSEC, uint16(1000 + cmark)}})
 			case 'g':
 				owner, cov := "z.test.", dns.TypeSOA
 				if ng > 0 {
@@ -1302,6 +1335,7 @@ func (h *histT) cutrec(k, itemS, leaseS string) vlib.Res {
 				sg.OrigTtl = uint32(it.a)
 				sg.TypeCovered = cov
 				sg.Labels = uint8(dns.CountLabel(owner))
+				sg.Inception = uint32(cutBase*vlib.Atoi(k) + cmark)
 				proof.Ns = append(proof.Ns, sg)
 			}
 		}
@@ -1344,8 +1378,9 @@ func (h *histT) cutrec(k, itemS, leaseS string) vlib.Res {
 	if got > life {
 		or = fail("c/cutrec/outlives-"+lim, "stored=%ds permitted=%ds", got, life)
 	}
-	h.marks++
-	h.cuts[tok] = &orec{gen: h.marks, admitV: h.V, life: life, lim: lim, nsLife: life, nsLim: lim, lastShown: -1, mark: -1}
+	co := &orec{gen: h.marks, admitV: h.V, life: life, lim: lim, nsLife: life, nsLim: lim, lastShown: -1, mark: cmark}
+	h.cuts[tok] = co
+	h.origins[fmt.Sprintf("%s#%d", tok, cmark)] = co
 	return vlib.Res{Impl: fmt.Sprintf("t exp=%d", got), Oracle: or, Tags: "nt,lim=" + lim}
 }
 
